@@ -65,3 +65,23 @@ Theorem C13_gathering_terminates : forall builtins order U c gc n m,
   S (length U) < n -> S (length U) < m ->
   gather builtins order n c gc = gather builtins order m c gc.
 Proof. exact gather_enough_fuel. Qed.
+
+(* The side-by-side adjustment of the removed-line styles happens after resolution (set_options):
+   the guards read from the current tree test each option's own command-line key ... *)
+From Coq Require Import String.
+From DV Require Import Text SbsStyles GenSbs.
+
+Theorem C13_sbs_guards_own_key : forall o, code_guard o = o.
+Proof. intros []; reflexivity. Qed.
+
+(* ... so a value given on the command line is left exactly as given, whatever enabled side-by-side;
+   with side-by-side off nothing is rewritten; and only values of the form `normal X` ever are *)
+Theorem C13_sbs_keeps_command_line_value : forall supplied sbs o v,
+  supplied o = true -> adjust code_guard supplied sbs o v = v.
+Proof. intros supplied sbs o v. exact (adjust_keeps_supplied code_guard supplied sbs o v (C13_sbs_guards_own_key o)). Qed.
+
+Theorem C13_sbs_off_no_rewrite : forall supplied o v, adjust code_guard supplied false o v = v.
+Proof. exact (adjust_off code_guard). Qed.
+
+Theorem C13_sbs_rewrites_only_normal : forall v, strip_prefix (lit "normal "%string) v = None -> to_syntax v = v.
+Proof. exact to_syntax_other. Qed.
